@@ -156,6 +156,27 @@ class JumpToStageHandler(StabilizeHandler[JumpToStage]):
                 )
                 return
 
+            # A jump is requested by a task of a RUNNING stage. If the source stage
+            # is no longer RUNNING the message is stale: the stage was canceled,
+            # completed or re-armed by another jump meanwhile, and applying the jump
+            # would overwrite a finished status (CANCELED -> SUCCEEDED) or resurrect
+            # a canceled workflow.
+            if source_stage.status != WorkflowStatus.RUNNING:
+                logger.warning(
+                    "Ignoring stale JumpToStage from %s (status %s) to %s",
+                    source_stage.ref_id,
+                    source_stage.status,
+                    message.target_stage_ref_id,
+                )
+                if message.message_id:
+                    with self.repository.transaction(self.queue) as txn:
+                        txn.mark_message_processed(
+                            message_id=message.message_id,
+                            handler_type="JumpToStage",
+                            execution_id=message.execution_id,
+                        )
+                return
+
             # Find target stage by ref_id
             target_stage = execution.stage_by_ref_id(message.target_stage_ref_id)
 
